@@ -43,6 +43,9 @@ var Complete func(w []byte) []byte
 // SuffixMenu is appended to every expanded node (see PfxBFSDelta).
 var SuffixMenu = []string{".5", ".5e1", "e1", "E+1", "e-0", "5", "00", "-", "+1", "null", "true", "false", "0", "-1", "1.5e1", `"x"`, "[]", "{}", " null", "\tnull ", "nullx", "ull", "rue", ",null", ":null", "]", "}", "null]", "null}", `"x":null}`}
 
+// NonJSONSpaces are white space in Unicode / Go's unicode.IsSpace / other parsers, not in JSON.
+var NonJSONSpaces = []string{"\v", "\f", "\x85", "\xa0", "\x00", "\xc2\x85", "\xc2\xa0", "\xe1\x9a\x80", "\xe2\x80\x83", "\xe2\x80\xa8", "\xe2\x80\xa9", "\xe3\x80\x80", "\xef\xbb\xbf", "\x1c", "\x1f"}
+
 // classReps has one representative byte per byte class.
 var classReps = func() []byte {
 	seen := map[byte]bool{}
@@ -70,6 +73,19 @@ func PfxBFSDelta(r *Run, roots [][]byte, visit Visit, maxStates int, delta int) 
 	loopSeen := map[string]struct{}{}
 	if len(roots) == 0 {
 		roots = [][]byte{nil}
+	}
+	// bytes and sequences that other languages / libraries treat as white space but JSON does not:
+	// each followed by every token of the suffix menu, at the start and after a real space
+	for _, pre := range NonJSONSpaces {
+		for _, lead := range []string{"", " "} {
+			visit(Exact([]byte(lead + pre)))
+			st.Transitions++
+			for _, m := range SuffixMenu {
+				visit(Exact([]byte(lead + pre + m)))
+				visit(Exact([]byte(m + pre)))
+				st.Transitions += 2
+			}
+		}
 	}
 	for _, rt := range roots {
 		k, ex := visit(rt)
